@@ -28,7 +28,51 @@ SOURCE_KINDS = ("call", "mcall", "param", "fread", "fread_this")
 SINK_KINDS = ("call", "mcall", "fwrite", "rwrite")
 BROKEN = ("unrelated-var", "unrelated-field", "unrelated-object", "other-container", "callee-drops", "callee-other-param", "killed")
 SINK_TWISTS = ("wrong-pos", "tainted-receiver", "other-key", "near-miss-name")
-RULE_MODES = ("base", "ext", "never", "away:line", "away:unit", "away:language", "away:operation", "ok:line", "ok:unit")
+RULE_MODES = ("base", "ext", "never", "multi", "decoy", "away:line", "away:unit", "away:path", "away:line+unit/L", "away:line+unit/U",
+              "away:language", "away:operation", "ok:line", "ok:unit", "ok:path", "ok:line+unit")
+RESTRICTIONS = ("away:line", "away:unit", "away:line+unit/L", "away:line+unit/U", "ok:line", "ok:unit", "ok:line+unit")
+PATH_RESTRICTIONS = ("away:path", "ok:path")
+# the matchers that read unit_path (parameter sources and call sinks have that filter commented out)
+READS_UNIT_PATH = {("source", "call"), ("source", "mcall"), ("source", "fread"), ("source", "fread_this"),
+                   ("sink", "mcall"), ("sink", "fwrite"), ("sink", "rwrite")}
+SRCIN = ("r1@1", "r2f@1", "r2l@1", "r2e@1", "r2E@1", "r3m@1", "r2f@2", "r2l@2", "r1@2")
+TARGET_LISTS = {"call": [["\\%arg0", "\\%arg2"], ["\\%arg1", "\\%arg2"], ["\\%arg0", "\\%arg1"], ["\\%arg2", "\\%arg0"]],
+                "mcall": [["\\%receiver", "\\%arg1"], ["\\%arg0", "\\%arg1"], ["\\%arg1", "\\%receiver"]]}
+# a first (or only) target that is no keyword of the format: it designates nothing
+BAD_TARGET_LISTS = {"call": [["\\%bogus", "\\%arg1"], ["%arg0"], ["\\%arg0", "\\%bogus"]],
+                    "mcall": [["\\%bogus", "\\%arg0"], ["%arg1"]]}
+
+
+def restriction_combos():
+    """Every (side, kind, restriction mode) the settings format offers, in a fixed order (cycled systematically)."""
+    out = []
+    for side, kinds in (("source", SOURCE_KINDS), ("sink", SINK_KINDS)):
+        for kd in kinds:
+            modes = list(RESTRICTIONS) + ["away:language"]
+            if (side, kd) in READS_UNIT_PATH:
+                modes += list(PATH_RESTRICTIONS)
+            if (side, kd) in (("source", "param"), ("sink", "mcall")):
+                modes.append("away:operation")
+            for m in modes:
+                out.append((side, kd, m))
+    return out
+
+
+COMBOS = restriction_combos()
+
+
+def mode_active(mode, level):
+    """Does a rule of this mode designate the gadget's own site under the given rule-set level?"""
+    return mode in ("base", "multi") or mode.startswith("ok:") or (mode == "ext" and level == "extended")
+
+
+def designated(g):
+    """(argument positions, receiver?) the gadget's sink rule designates (call / method-call sinks)."""
+    tl = g.get("targets")
+    if not tl:
+        return {g["pos"]}, False
+    pos = {int(t[-1]) for t in tl if t.startswith("\\%arg") and t[-1].isdigit() and len(t) == 6}
+    return pos, "\\%receiver" in tl
 POS_LETTER = "abc"
 
 
@@ -123,7 +167,7 @@ class Program:
 
 def source_name(g):
     """(rule operation, rule name, statement-level pieces) for the gadget's source."""
-    m, i, gid = g["src_mode"], g["src_idx"], g["gid"]
+    m, i, gid = g["src_mode"], g["src_idx"], g.get("name_gid", g["gid"])
     suffix = {"base": str(i), "ext": f"X{i}", "never": f"N{i}"}.get(m, f"R{gid}")
     sk = g["sk"]
     if sk == "call":
@@ -141,8 +185,8 @@ def source_name(g):
 
 
 def sink_name(g):
-    m, i, gid = g["snk_mode"], g["snk_idx"], g["gid"]
-    suffix = {"base": str(i), "ext": f"X{i}", "never": f"N{i}"}.get(m, f"R{gid}")
+    m, i, gid = g["snk_mode"], g["snk_idx"], g.get("name_gid", g["gid"])
+    suffix = {"base": str(i), "ext": f"X{i}", "never": f"N{i}", "multi": f"M{gid}"}.get(m, f"R{gid}")
     tk = g["tk"]
     if tk == "call":
         stem = "safesnk" if m == "never" else "dangersnk"
@@ -180,12 +224,87 @@ def _const(prog):
     return f'"c{prog.counter}"'
 
 
+def emit_source_stmt(g, prog, body, x, name, tag):
+    sk = g["sk"]
+    if sk == "call":
+        body.add(f"{x} = {name}()", tag)
+    elif sk == "mcall":
+        recv, fld = name.split(".")
+        body.add(f"{recv} = mkconn()")
+        body.add(f"{x} = {recv}.{fld}()", tag)
+    else:
+        recv, fld = name.split(".")
+        body.add(f"{recv} = mkcfg()")
+        body.add(f"{x} = {recv}.{fld}", tag)
+
+
+def emit_source_in_callee(ctx, body):
+    """The source statement lives in a helper that hands the value back through one of 1..3 return statements
+    (srcin = r<n><where>@<call levels>: f/l = tainted return first / last, e/E = if-else with the tainted return in the
+    if / else arm, m = the middle one of three).  Nothing tainted enters the helper as an argument."""
+    g, prog = ctx.g, ctx.prog
+    kind, levels = g["srcin"].split("@")
+    levels = int(levels)
+    lay = g["layout"] or [0]
+    f_outer = lay[0]
+    f_inner = lay[min(levels, len(lay)) - 1]
+    op, name = source_name(g)
+    fn, fl, x = prog.fresh("hs"), prog.fresh("fl"), prog.fresh("v")
+    b = Body()
+    b.add(f"def {fn}({fl}):")
+    b.ind = 1
+    emit_source_stmt(g, prog, b, x, name, ("src", g["gid"]))
+    if kind == "r1":
+        b.add(f"return {x}")
+    elif kind in ("r2f", "r2l"):
+        b.add(f"if {fl}:")
+        b.sub().add(f"return {x}" if kind == "r2f" else f"return {_const(prog)}")
+        b.add(f"return {_const(prog)}" if kind == "r2f" else f"return {x}")
+    elif kind in ("r2e", "r2E"):
+        b.add(f"if {fl}:")
+        b.sub().add(f"return {x}" if kind == "r2e" else f"return {_const(prog)}")
+        b.add("else:")
+        b.sub().add(f"return {_const(prog)}" if kind == "r2e" else f"return {x}")
+    else:
+        b.add(f"if {fl}:")
+        b.sub().add(f"return {_const(prog)}")
+        b.add(f"if not {fl}:")
+        b.sub().add(f"return {x}")
+        b.add(f"return {_const(prog)}")
+    prog.defs[f_inner].append(b)
+    callee, callee_file = fn, f_inner
+    if levels == 2:
+        fo, fl2, v = prog.fresh("hs"), prog.fresh("fl"), prog.fresh("v")
+        b2 = Body()
+        b2.add(f"def {fo}({fl2}):")
+        b2.ind = 1
+        b2.add(f"{v} = {prog.ref(fn, f_outer, f_inner, g['imp'])}({fl2})")
+        b2.add(f"return {v}")
+        prog.defs[f_outer].append(b2)
+        callee, callee_file = fo, f_outer
+    flv = ctx.flagvar
+    if not ctx.in_func or flv is None:
+        flv = prog.fresh("flag")
+        body.add(f"{flv} = askflag()")
+    y = prog.fresh("v")
+    body.add(f"{y} = {prog.ref(callee, ctx.file, callee_file, g['imp'])}({flv})")
+    ctx.maybe_str = True
+    return y
+
+
 def emit_source(ctx, body, handler_params):
     g, prog = ctx.g, ctx.prog
     op, name = source_name(g)
     tag = ("src", g["gid"])
     x = prog.fresh("v")
     sk = g["sk"]
+    if g.get("srcin") and sk in ("call", "mcall", "fread"):
+        return emit_source_in_callee(ctx, body)
+    if sk == "param" and g.get("param_in_helper"):
+        # decoy: a parameter of that name in a helper of another file, fed with an untainted value by its caller
+        ctx.force_param = (name, tag)
+        body.add(f"{x} = cleansrcN9()")
+        return x
     if sk == "call":
         body.add(f"{x} = {name}()", tag)
     elif sk == "mcall":
@@ -211,22 +330,25 @@ def emit_sink(ctx, body, x):
     tw = g["twist"]
     tk = g["tk"]
     if tk in ("call", "mcall"):
-        n_args = max(g["pos"] + 1, 2 if tw == "wrong-pos" else 1)
+        dpos, drecv = designated(g)
+        n_args = max(list(dpos) + [g["pos"], 1 if tw == "wrong-pos" else 0]) + 1
+        put = g.get("put", g["pos"])
         if tw == "wrong-pos":
-            n_args = max(n_args, 2)
-            other = [q for q in range(n_args) if q != g["pos"]]
+            other = [q for q in range(max(n_args, 2)) if q not in dpos]
+            if not other:
+                other = [max(dpos) + 1]
             put = other[g["gid"] % len(other)]
-        else:
-            put = g["pos"]
+            n_args = max(n_args, put + 1)
+        if tw == "tainted-receiver":
+            put = "recv"
         args = [x if q == put else _const(prog) for q in range(n_args)]
         if tk == "call":
             body.add(f"{name}({', '.join(args)})", tag)
         else:
             recv, fld = name.split(".")
             body.add(f"{recv} = mkdb()")
-            if tw == "tainted-receiver":
+            if put == "recv":
                 body.add(f"{recv}.otherfld{g['gid']} = {x}")
-                args = [_const(prog) for _ in args]
             body.add(f"{recv}.{fld}({', '.join(args)})", tag)
     elif tk == "fwrite":
         recv, fld = name.split(".")
@@ -358,7 +480,13 @@ def emit_chain(ctx, body, chain, x):
         p = prog.fresh("p")
         b = Body()
         sub = ctx.child(hf)
-        if var == 0:
+        forced = getattr(ctx, "force_param", None)
+        if forced:
+            p, ptag = forced
+            ctx.force_param = None
+            b.add(f"def {fn}({p}):", ptag)
+            call = f"({x})"
+        elif var == 0:
             b.add(f"def {fn}({p}):")
             call = f"({x})"
         elif var == 1:
@@ -529,6 +657,8 @@ def emit_chain(ctx, body, chain, x):
             body.add(f"{t} = ({_const(prog)}, {x})")
             body.add(f"{z}, {y} = {t}")
     elif c == "cond":
+        if g.get("srcin"):
+            var = 0          # the callee's own flag already decides whether the value comes back; keep both arms carrying it
         fl = ctx.flagvar
         if not ctx.in_func or fl is None:
             fl = prog.fresh("flag")
@@ -582,14 +712,7 @@ def make_gadget(rng, gid, k, profile, force=None):
                   "rwrite": ["other-key"]}[tk]
             g["twist"] = rng.choice(ok)
         else:
-            side = rng.choice(["src_mode", "snk_mode"])
-            g[side] = rng.choice(["ext", "ext", "never", "away:line", "away:unit", "away:language"])
-            if (side == "src_mode" and sk == "param" or side == "snk_mode" and tk == "mcall") and rng.random() < 0.7:
-                g[side] = "away:operation"
-    else:
-        r = rng.random()
-        if r < 0.12:
-            g[rng.choice(["src_mode", "snk_mode"])] = rng.choice(["ok:line", "ok:unit"])
+            g[rng.choice(["src_mode", "snk_mode"])] = rng.choice(["ext", "ext", "never"])
     # layout: helper level -> file index, non-decreasing
     r = rng.random()
     if r < 0.5:
@@ -598,9 +721,82 @@ def make_gadget(rng, gid, k, profile, force=None):
         g["layout"] = rng.choice([[1], [0, 1], [1, 1]])
     else:
         g["layout"] = rng.choice([[1, 2], [0, 1, 2], [1, 1, 2]])
+    # systematically: every `every`-th gadget carries a restricted rule, cycling through all (side, kind, mode) combinations
+    every = 5 if profile == "c10" else 3
+    if k % every == 0:
+        side, kd, mode = COMBOS[(k // every) % len(COMBOS)]
+        if g["twist"] is None and g["src_mode"] == "base" and g["snk_mode"] == "base":
+            if side == "source":
+                g["sk"], g["src_mode"] = kd, mode
+            else:
+                g["tk"], g["snk_mode"] = kd, mode
+                g["pos"] = g["pos"] if kd in ("call", "mcall") and g["pos"] < (3 if kd == "call" else 2) else 0
+            g["restricted"] = f"{side}:{kd}:{mode}"
+            g["chain"] = [c for c in g["chain"] if c[0] != "broken"]
+            if "unit" in mode or "path" in mode:
+                # the restricted site stays in the main file; its decoy goes to another file
+                if side == "sink":
+                    g["chain"] = [c for c in g["chain"] if c[0] not in ("param", "closure")]
+    # the source statement inside a callee with 1..3 return statements (nothing tainted enters the callee)
+    elif g["sk"] in ("call", "mcall", "fread") and k % 4 == 1:
+        g["srcin"] = SRCIN[(k // 4) % len(SRCIN)]
+    # sink rules with several targets / with a first target that is no keyword
+    elif g["tk"] in ("call", "mcall") and g["twist"] in (None, "wrong-pos") and g["snk_mode"] == "base" and k % 7 == 3:
+        bad = (k // 7) % 5 == 4
+        pool = (BAD_TARGET_LISTS if bad else TARGET_LISTS)[g["tk"]]
+        g["targets"] = list(pool[(k // 7) % len(pool)])
+        g["snk_mode"] = "multi"
+        dpos, drecv = designated(g)
+        choices = sorted(dpos) + (["recv"] if drecv else [])
+        if choices and g["twist"] is None:
+            g["put"] = choices[(k // 7) % len(choices)]
+            g["pos"] = g["put"] if isinstance(g["put"], int) else (min(dpos) if dpos else 0)
+        else:
+            g["twist"] = "wrong-pos" if dpos or not drecv else None
+            g["pos"] = min(dpos) if dpos else 0
+            if not dpos and not drecv:
+                g["twist"] = None           # nothing is designated at all: any position is a negative
+                g["put"] = 0
+        g["bad_target"] = bad
     if force:
         g.update(force)
     return g
+
+
+def make_decoy(g, gid):
+    """A same-named site elsewhere that the restriction of g's 'ok:*' rule must exclude (other line; other file for unit /
+    path restrictions).  It reaches a base sink (source decoys) / is fed by a base source (sink decoys) and has no rule of its own."""
+    r = g.get("restricted")
+    if not r:
+        return None
+    side, kd, mode = r.split(":", 2)
+    if not mode.startswith("ok:"):
+        return None
+    other_file = "unit" in mode and "line" not in mode or "path" in mode
+    d = {"gid": gid, "sk": "call", "tk": "call", "pos": 0, "chain": [], "twist": None, "src_mode": "base", "snk_mode": "base",
+         "src_idx": 0, "snk_idx": 0, "imp": "from", "layout": [0], "decoy_of": g["gid"], "name_gid": g.get("name_gid", g["gid"]),
+         "own_entry": True}
+    if side == "source":
+        d["sk"], d["src_mode"], d["src_idx"] = kd, "decoy", g["src_idx"]
+        if kd == "fread_this":
+            if other_file:
+                return None
+        elif kd == "param":
+            if other_file:
+                d.update(param_in_helper=True, chain=[["param", 0]], layout=[1])
+        else:
+            if other_file:
+                if g.get("srcin"):
+                    return None
+                d.update(srcin="r1@1", layout=[1])
+    else:
+        d["tk"], d["snk_mode"], d["snk_idx"], d["pos"] = kd, "decoy", g["snk_idx"], g["pos"]
+        if g.get("targets"):
+            d["targets"] = g["targets"]
+        d["sk"] = "mcall"
+        if other_file:
+            d.update(chain=[["param", 0]], layout=[1])
+    return d
 
 
 def gadget_place(g, rng):
@@ -636,6 +832,13 @@ def build_program(pid, gadgets, rng):
         i = 0
         while i < len(lst):
             n = rng.choice([1, 1, 2, 3])
+            if lst[i].get("own_entry"):
+                n = 1
+            else:
+                for j in range(1, n):
+                    if i + j < len(lst) and lst[i + j].get("own_entry"):
+                        n = j
+                        break
             part = lst[i:i + n]
             i += n
             hname = prog.fresh("handler" if kind == "func" else "mhandler")
@@ -676,6 +879,12 @@ def build_program(pid, gadgets, rng):
 def generate(seed, pid, n_gadgets, profile="c10", k0=0):
     rng = random.Random(seed)
     gadgets = [make_gadget(rng, i, k0 + i, profile) for i in range(n_gadgets)]
+    for g in list(gadgets):
+        if g.get("restricted") and g["sk"] == "param" and g["restricted"].startswith("source"):
+            g["own_entry"] = True
+        d = make_decoy(g, len(gadgets))
+        if d is not None:
+            gadgets.append(d)
     return build_program(pid, gadgets, rng).to_case()
 
 
@@ -701,7 +910,7 @@ def rules_for(case, level):
     other_unit = "zz_other_unit.py"
 
     def add(r):
-        k = (r.side, r.operation, r.name, r.key, tuple(r.target or ()), r.lang, r.unit_name, r.line_num)
+        k = (r.side, r.operation, r.name, r.key, tuple(r.target or ()), r.lang, r.unit_name, r.line_num, r.unit_path)
         if k not in seen:
             seen.add(k)
             rules.append(r)
@@ -710,17 +919,26 @@ def rules_for(case, level):
             mode = g["src_mode" if side == "source" else "snk_mode"]
             op, name = source_name(g) if side == "source" else sink_name(g)
             at = g.get("src_at" if side == "source" else "snk_at")
-            if mode == "never" or (mode == "ext" and level != "extended"):
+            if mode in ("never", "decoy") or (mode == "ext" and level != "extended"):
                 continue
             if level == "no-rules" or (level == "no-sources" and side == "source") or (level == "no-sinks" and side == "sink"):
                 continue
             kw = {}
             if mode.startswith(("away", "ok")) and at is None:
                 continue
+            if mode.startswith(("away", "ok")) and at is not None:
+                others = sorted(fn for fn in case["files"] if fn != at[0])
+                other_unit = others[g["gid"] % len(others)] if others and g["gid"] % 2 else "zz_other_unit.py"
             if mode == "away:line":
                 kw["line_num"] = at[1] + 1
             elif mode == "away:unit":
                 kw["unit_name"] = other_unit
+            elif mode == "away:path":
+                kw["unit_path"] = other_unit
+            elif mode == "away:line+unit/L":
+                kw["line_num"], kw["unit_name"] = at[1] + 1, at[0]
+            elif mode == "away:line+unit/U":
+                kw["line_num"], kw["unit_name"] = at[1], other_unit
             elif mode == "away:language":
                 kw["lang"] = "java"
             elif mode == "away:operation":
@@ -729,12 +947,16 @@ def rules_for(case, level):
                 kw["line_num"] = at[1]
             elif mode == "ok:unit":
                 kw["unit_name"] = at[0]
+            elif mode == "ok:path":
+                kw["unit_path"] = at[0]
+            elif mode == "ok:line+unit":
+                kw["line_num"], kw["unit_name"] = at[1], at[0]
             if side == "source":
                 add(Rule("source", op, name=name, **kw))
             else:
                 tk = g["tk"]
                 if tk in ("call", "mcall"):
-                    tgt = ["\\%arg" + str(g["pos"])]
+                    tgt = list(g["targets"]) if g.get("targets") else ["\\%arg" + str(g["pos"])]
                 elif tk == "fwrite":
                     tgt = ["\\%target"]
                 else:
